@@ -27,7 +27,8 @@ class C19(FlowCheck):
                'programs; error numbers, the two FOR direction tests and the ON/ERROR ranges are regenerated '
                'from the source (gen_flow); tokeniser/expression parser are not modelled (programs are typed '
                'in as text)']
-    PARTIAL = ('single-precision FOR counters are not modelled (integer counters only); GOTO/early exits, '
+    PARTIAL = ('single-precision FOR counters are a separate loop model (FlowSingle), their general termination '
+               'condition is stated but not proved; GOTO/early exits, '
                'NEXT variable lists and ON...GOTO are outside the structured language of the refinement '
                'theorem (they are covered by the step theorems and by correspondence)')
     RULE = ('structured programs (nested FOR/WHILE/IF, GOSUB, ON GOSUB; steps +/-/0; bounds at the 16-bit limits) '
